@@ -20,9 +20,53 @@ where
             Ok(0)
         }
         len => {
-            container.src.resize(len, 0);
-            reader.read_exact(&mut container.src).await?;
+            // The length is not trusted to preallocate the buffer: it grows as the data is read.
+            container.src.clear();
+
+            let n = reader
+                .take(len as u64)
+                .read_to_end(&mut container.src)
+                .await?;
+
+            if n < len {
+                return Err(io::Error::new(
+                    io::ErrorKind::UnexpectedEof,
+                    "failed to fill whole buffer",
+                ));
+            }
+
             Ok(len)
         }
+    }
+}
+
+#[cfg(test)]
+mod tests {
+    use super::*;
+
+    #[tokio::test]
+    async fn test_read_container_with_an_unsatisfiable_length() {
+        let src = [
+            0xff, 0xff, 0xff, 0x7f, // length = 2147483647 bytes
+            0x02, // reference sequence ID = 2
+            0x03, // starting position on the reference = 3
+            0x05, // alignment span = 5
+            0x08, // number of records = 8
+            0x0d, // record counter = 13
+            0x15, // bases = 21
+            0x22, // number of blocks = 34
+            0x02, // landmark count = 2
+            0x37, // landmarks[0] = 55
+            0x59, // landmarks[1] = 89
+            0x08, 0x97, 0xf8, 0x51, // CRC32
+            0x00, 0x00, 0x00, 0x00, // data (truncated)
+        ];
+
+        let mut container = Container::default();
+
+        assert!(matches!(
+            read_container(&mut &src[..], &mut container).await,
+            Err(e) if e.kind() == io::ErrorKind::UnexpectedEof
+        ));
     }
 }
